@@ -516,11 +516,19 @@ fn hqr2<T: RealNumber, M: BaseMatrix<T>>(A: &mut M, V: &mut M, d: &mut [T], e: &
                         panic!("Too many iterations in hqr");
                     }
                     if its > 0 && its % 10 == 0 {
-                        t += x;
+                        // exceptional shift, alternately taken from the bottom and from the top of the active block
+                        // (one kind alone can return the iteration to the same cycle every time)
+                        let from_top = (its / 10) % 2 == 0 && l + 2 <= nn;
+                        let origin = if from_top { A.get(l, l) } else { x };
+                        t += origin;
                         for i in 0..nn + 1 {
-                            A.sub_element_mut(i, i, x);
+                            A.sub_element_mut(i, i, origin);
                         }
-                        s = A.get(nn, nn - 1).abs() + A.get(nn - 1, nn - 2).abs();
+                        s = if from_top {
+                            A.get(l + 1, l).abs() + A.get(l + 2, l + 1).abs()
+                        } else {
+                            A.get(nn, nn - 1).abs() + A.get(nn - 1, nn - 2).abs()
+                        };
                         y = T::from(0.75).unwrap() * s;
                         x = T::from(0.75).unwrap() * s;
                         w = T::from(-0.4375).unwrap() * s * s;
